@@ -287,6 +287,8 @@ def classify(case, info, collide, opts, out, cleanup):
         return "C13:use_operators:negative-literal-pow-base:precedence"
     if stage in ("mismatch", "load", "run", "interface") and info["optional_outputs"] and any(re.fullmatch(r"_\d+", n) for n in G.all_names(case["proto"])):
         return "C13:names:missing-output-placeholder-collides"
+    if stage in ("mismatch", "to_proto") and opts["skip_initializers"] and case.get("dup_skipped"):
+        return "C13:skip_initializers:same-name-initializers-of-different-graphs:one-make_model-parameter"
     if collide:
         if stage in ("mismatch", "load", "run", "interface"):
             return "C13:names:collision-after-cleanup:silently-merged"
@@ -518,6 +520,13 @@ def corr_cf(ctx, workdir, cleanup, stats, tab):
     C.set_ops(tab["ops"])
     quick = ctx.tier == "quick"
     cases, rejected = C.nested_cases(ctx.rng, 26 if quick else 110, 8 if quick else 30)
+    # initializers OWNED BY SUBGRAPHS (same name in sibling branches / two Loop bodies / like a main-graph initializer; sizes around
+    # the inline and skip thresholds): Export/SubInits.v export_si; every option tuple; also handed to the round-trip oracle
+    from harness import c13_subinit as SI
+    sub_cases, rej_si = SI.subgraph_init_cases(ctx.rng, 8 if quick else 40)
+    stats["subinit_cases"] = sub_cases
+    cases = cases + sub_cases
+    rejected += rej_si
     skipped, items, refused = Counter(), [], 0
     oplines = {}
     for c in cases:
@@ -996,6 +1005,14 @@ def run_cases(ctx, cases, workdir, cleanup, stats):
                     ctx.sample({"case": c["id"], "options": opt_tag(opts), "outcome": "round trip equal on %d feeds" % len(c["feeds"]),
                                 "nodes": info["nodes"], "depth": info["depth"], "collision_free": fr})
                 continue
+            if out["stage"] == "export" and out["exc"] == "RuntimeError" and "already present in skipped_initializers" in out["msg"] \
+                    and c.get("dup_skipped") and opts["skip_initializers"]:
+                # two skipped initializers of different graphs under one name: one make_model parameter cannot stand for both;
+                # the descriptive refusal is an allowed outcome (Props/C13_subinit.v: refused iff two of them get the same Python name)
+                stats["refused_descriptively"] += 1
+                stats["refused_same_name_skipped_initializers"] += 1
+                ctx.case(shape + (opt_tag(opts), "refused:same-name-skipped-initializers"))
+                continue
             if out["stage"] == "export" and out["exc"] == "RuntimeError" and "sequential assignments" in out["msg"] and info["swap"]:
                 # a descriptive refusal of a model outside the exportable class (C13_12): what the property asks for
                 stats["refused_descriptively"] += 1
@@ -1218,7 +1235,10 @@ def run(ctx):
     # the hand-made nested features through the oracle: default options, and operators + inlined literals
     for c in cf_feats:
         c["opts"] = [ALL_OPTS[0], dict(zip(OPT_NAMES, (False, True, True, False)))]
-    cases = scripts + hand + attrs + ranks + models + funcs + templ + cf_feats
+    sub_inits = stats.pop("subinit_cases", [])
+    for c in sub_inits:
+        c["opts"] = list(ALL_OPTS)  # every option tuple in both tiers
+    cases = scripts + hand + attrs + ranks + models + funcs + templ + cf_feats + sub_inits
     stats["generated_invalid_skipped"] = rej1 + rej2 + rej3
     stats["rank_const_illegal_combinations"] = rej4
     run_cases(ctx, cases, workdir, cleanup, stats)
@@ -1233,6 +1253,10 @@ def run(ctx):
     ctx.obligation("oracle health: at least a fifth of the round trips complete and agree (the check is not blind)",
                    stats["ok"] >= 0.2 * max(1, stats["runs"]), f"{stats['ok']} of {stats['runs']}")
     ctx.cover(attr_nesting_functions=len(attrs), rank_const_models=len(ranks), rank_const_illegal_combinations=rej4)
+    ctx.cover(subgraph_initializer_models=len(sub_inits), subgraph_initializer_models_with_two_skipped_of_one_name=sum(1 for c in sub_inits if c["dup_skipped"]),
+              refused_same_name_skipped_initializers=stats["refused_same_name_skipped_initializers"])
+    ctx.obligation("generator health: the subgraph-initializer family contains models with two skipped initializers of one name and models without",
+                   any(c["dup_skipped"] for c in sub_inits) and any(not c["dup_skipped"] for c in sub_inits), f"{len(sub_inits)} models")
     ctx.cover(models=len(models), functions=len(funcs), script_cases=len(scripts), hand_cases=len(hand),
               round_trips=stats["runs"], round_trips_equal=stats["ok"], by_option=stats["by_option"], equal_by_option=stats["ok_by_option"],
               failures_by_class=stats["failures"], models_with_name_collisions=stats["models_with_collisions"],
